@@ -803,7 +803,7 @@ func TestVerifC19(t *testing.T) {
 	r := vsched.Rep()
 	r.Assumption("go-quartz (v0.15.2) runs un-instrumented inside the bubble on the fake clock; its internal interleavings are not explored")
 	r.Assumption("cluster cron: the cluster engine is a fake whose ClaimScheduleFire is an atomic put-if-absent with TTL (the documented contract of internal/cluster.ClaimScheduleFire = olric NX+EX); olric and the real wrapper are not run; no node lags behind a tick by more than the claim TTL (the stale-tick skip is not exercised)")
-	depth := vsched.Pick(4, 6)
+	depth := vsched.Pick(5, 6)
 	// the BFS gets at most 60% of the wall budget, the cron scenarios share the rest
 	budget := 3600.0
 	if f, err := strconv.ParseFloat(os.Getenv("VERIF_BUDGET_S"), 64); err == nil {
